@@ -46,14 +46,23 @@ Inductive pc : Type :=
 | N_ffs (g : bytes)     (* "<GUID>.ffs" *)
 | N_sec (v : Z)         (* "<FileOrder>.sec" *)
 | N_pad                 (* "pad.bin" *)
-| N_region.             (* "biosregion.bin" *)
+| N_region              (* "biosregion.bin" *)
+(* flash level *)
+| C_ifd                 (* "ifd"             FlashDescriptor directory *)
+| N_ifd                 (* "flashdescriptor.bin" *)
+| C_me                  (* "me"              MERegion directory *)
+| N_me                  (* "meregion.bin" *)
+| C_rawdir (t : Z)      (* FlashRegionType.String() of a RawRegion: "GbE", ..., "Unknown Region (-1)" *)
+| N_hexbin (v : Z).     (* "%#x.bin"         RawRegion file: FlashRegion().BaseOffset() *)
 
 Definition path := list pc.
 
 Definition pc_eqb (a b : pc) : bool :=
   match a, b with
-  | C_bios, C_bios | N_fv, N_fv | N_fvh, N_fvh | N_pad, N_pad | N_region, N_region => true
-  | C_hex x, C_hex y | C_padhex x, C_padhex y | C_dec x, C_dec y | N_sec x, N_sec y => x =? y
+  | C_bios, C_bios | N_fv, N_fv | N_fvh, N_fvh | N_pad, N_pad | N_region, N_region
+  | C_ifd, C_ifd | N_ifd, N_ifd | C_me, C_me | N_me, N_me => true
+  | C_hex x, C_hex y | C_padhex x, C_padhex y | C_dec x, C_dec y | N_sec x, N_sec y
+  | C_rawdir x, C_rawdir y | N_hexbin x, N_hexbin y => x =? y
   | C_guid x, C_guid y | N_ffs x, N_ffs y => bytes_eqb x y
   | _, _ => false
   end.
@@ -75,14 +84,15 @@ Fixpoint str (s : string) : bytes :=
 Definition digit_lc (d : Z) : Z := if d <? 10 then 48 + d else 87 + d.
 Definition digit_uc (d : Z) : Z := if d <? 10 then 48 + d else 55 + d.
 
-(* digits of a non-negative number, least significant first; 64 digits suffice for any uint64 *)
+(* digits of a non-negative number, least significant first; [fuel] > log2 v always suffices *)
 Fixpoint digits_rev (base : Z) (fuel : nat) (v : Z) : bytes :=
   match fuel with
   | O => []
   | S k => if v <? base then [digit_lc v] else digit_lc (v mod base) :: digits_rev base k (v / base)
   end.
+Definition digits_of (base v : Z) : bytes := rev (digits_rev base (S (Z.to_nat (Z.log2 v))) v).
 Definition render_num (base v : Z) : bytes :=
-  if v <? 0 then 45 :: rev (digits_rev base 64 (- v)) else rev (digits_rev base 64 v).
+  if v <? 0 then 45 :: digits_of base (- v) else digits_of base v.
 
 Definition hex2_uc (b : Z) : bytes := [digit_uc (b / 16); digit_uc (b mod 16)].
 
@@ -116,29 +126,49 @@ Definition guid_parse (s : bytes) : option bytes :=
   end.
 
 
-Definition t_bios : bytes := Eval vm_compute in (str "bios").
-Definition t_0x : bytes := Eval vm_compute in (str "0x").
-Definition t_biospad0x : bytes := Eval vm_compute in (str "biospad_0x").
-Definition t_fv : bytes := Eval vm_compute in (str "fv.bin").
-Definition t_fvh : bytes := Eval vm_compute in (str "fvh.bin").
-Definition t_ffs : bytes := Eval vm_compute in (str ".ffs").
-Definition t_sec : bytes := Eval vm_compute in (str ".sec").
-Definition t_pad : bytes := Eval vm_compute in (str "pad.bin").
-Definition t_region : bytes := Eval vm_compute in (str "biosregion.bin").
+Definition tx_bios : bytes := Eval vm_compute in (str "bios").
+Definition tx_0x : bytes := Eval vm_compute in (str "0x").
+Definition tx_biospad0x : bytes := Eval vm_compute in (str "biospad_0x").
+Definition tx_fv : bytes := Eval vm_compute in (str "fv.bin").
+Definition tx_fvh : bytes := Eval vm_compute in (str "fvh.bin").
+Definition tx_ffs : bytes := Eval vm_compute in (str ".ffs").
+Definition tx_sec : bytes := Eval vm_compute in (str ".sec").
+Definition tx_pad : bytes := Eval vm_compute in (str "pad.bin").
+Definition tx_region : bytes := Eval vm_compute in (str "biosregion.bin").
+Definition tx_ifd : bytes := Eval vm_compute in (str "ifd").
+Definition tx_ifdbin : bytes := Eval vm_compute in (str "flashdescriptor.bin").
+Definition tx_me : bytes := Eval vm_compute in (str "me").
+Definition tx_mebin : bytes := Eval vm_compute in (str "meregion.bin").
+Definition tx_bin : bytes := Eval vm_compute in (str ".bin").
+Definition tx_unknown : bytes := Eval vm_compute in (str "Unknown Region (").
+(* FlashRegionType.String(): names regenerated from pkg/uefi/region.go *)
+Definition region_type_names : list (Z * bytes) :=
+  Eval vm_compute in (map (fun p => (fst p, str (snd p))) jf_region_type_names).
+Definition region_type_string (t : Z) : bytes :=
+  match find (fun p => fst p =? t) region_type_names with
+  | Some p => snd p
+  | None => tx_unknown ++ render_num 10 t ++ [41]
+  end.
 
 Definition render_pc (c : pc) : bytes :=
   match c with
-  | C_bios => t_bios
-  | C_hex v => t_0x ++ render_num 16 v
-  | C_padhex v => t_biospad0x ++ render_num 16 v
+  | C_bios => tx_bios
+  | C_hex v => tx_0x ++ render_num 16 v
+  | C_padhex v => tx_biospad0x ++ render_num 16 v
   | C_guid g => guid_string g
   | C_dec v => render_num 10 v
-  | N_fv => t_fv
-  | N_fvh => t_fvh
-  | N_ffs g => guid_string g ++ t_ffs
-  | N_sec v => render_num 10 v ++ t_sec
-  | N_pad => t_pad
-  | N_region => t_region
+  | N_fv => tx_fv
+  | N_fvh => tx_fvh
+  | N_ffs g => guid_string g ++ tx_ffs
+  | N_sec v => render_num 10 v ++ tx_sec
+  | N_pad => tx_pad
+  | N_region => tx_region
+  | C_ifd => tx_ifd
+  | N_ifd => tx_ifdbin
+  | C_me => tx_me
+  | N_me => tx_mebin
+  | C_rawdir t => region_type_string t
+  | N_hexbin v => tx_0x ++ render_num 16 v ++ tx_bin
   end.
 
 Fixpoint render_path (p : path) : bytes :=
@@ -485,7 +515,7 @@ Definition region_paths_ok (elems : list node) : Prop :=
    (they hold for every tree the parser returns; see ExtractProofs.parse_region_wf):
    a volume with files has its data offset inside its buffer and a buffer no longer than Length;
    an encapsulating GUID-defined section has the processing-required attribute (so that it is
-   re-encoded from its children, not taken from its old buffer); a file GUID has 16 bytes. *)
+   re-encoded from its children, not taken from its old buffer); a file GUID is 16 bytes. *)
 Fixpoint wf_treeb (n : node) {struct n} : bool :=
   let all := fix all (l : list node) : bool :=
     match l with [] => true | x :: r => wf_treeb x && all r end in
@@ -497,7 +527,7 @@ Fixpoint wf_treeb (n : node) {struct n} : bool :=
               match s_gd h with Some g => negb (Z.land (gd_attrs g) 1 =? 0) | None => true end
             else true
      end) && all kids
-  | NFile h _ kids => (zlen (f_guid h) =? 16) && all kids
+  | NFile h _ kids => (zlen (f_guid h) =? 16) && bytes_ok (f_guid h) && all kids
   | NVol h buf kids =>
     (match kids with
      | [] => true
@@ -508,6 +538,20 @@ Fixpoint wf_treeb (n : node) {struct n} : bool :=
 Fixpoint wf_treeb_list (l : list node) : bool :=
   match l with [] => true | x :: r => wf_treeb x && wf_treeb_list r end.
 Definition wf_tree (n : node) : Prop := wf_treeb n = true.
+
+(* offsets and section numbers are not negative (they are Go uint64 / slice indices): the side
+   condition under which the text of a path determines the path *)
+Fixpoint nonneg_treeb (n : node) {struct n} : bool :=
+  let all := fix all (l : list node) : bool :=
+    match l with [] => true | x :: r => nonneg_treeb x && all r end in
+  match n with
+  | NSec h _ kids => (0 <=? s_order h) && all kids
+  | NFile _ _ kids => all kids
+  | NVol h _ kids => (0 <=? v_fvoffset h) && all kids
+  | NPad off _ => 0 <=? off
+  end.
+Fixpoint nonneg_treeb_list (l : list node) : bool :=
+  match l with [] => true | x :: r => nonneg_treeb x && nonneg_treeb_list r end.
 
 (* ---------- the two pipelines of property C07, on a bare BIOS region ---------- *)
 
